@@ -97,7 +97,13 @@ func runSplit(op *connfake.Op, v int16, body []byte, sh connfake.Shape, k int) s
 		c.SetDeadline(time.Now().Add(700 * time.Millisecond))
 		var d string
 		var err error
-		if verifOp(op.Name) {
+		if op.Name == "apiVersions" {
+			var vs []kafka.ApiVersion
+			vs, err = c.ApiVersions()
+			for _, a := range vs {
+				d += fmt.Sprintf("%d:%d:%d/", a.ApiKey, a.MinVersion, a.MaxVersion)
+			}
+		} else if verifOp(op.Name) {
 			d, err = kafka.VerifConnOp(c, op.Name)
 		} else {
 			d, err = op.Call(c, &sh)
@@ -154,10 +160,97 @@ func bigRecordSet(r *rand.Rand, magic int8, base int64, n int) ([]byte, []connfa
 	return set, want
 }
 
+// fetchHeader: the header readers of read.go (readFetchResponseHeaderV2/V5/V10) with DISTINCT values in every field
+// (throttle, high watermark, last stable offset, log start offset, aborted transactions): what the Batch reports must be
+// the throttle and the high watermark the broker encoded, and the records must follow.
+func fetchHeader(w *bufio.Writer, r *rand.Rand) {
+	op := connfake.OpByName("fetch")
+	for _, v := range []int16{2, 5, 10} {
+		magic := int8(2)
+		if v < 4 {
+			magic = 1
+		}
+		sh := connfake.Shape{Topic: "t", Offset: 5}
+		if magic < 2 {
+			sh.Offset = 0
+		}
+		sh.Set, sh.Want = bigRecordSet(r, magic, sh.Offset, 2)
+		throttle, hwm := int32(700+int32(v)), int64(1000+int64(v))
+		b := &connfake.W{}
+		b.I32(throttle)
+		if v >= 7 {
+			b.I16(0)
+			b.I32(55)
+		}
+		b.I32(1)
+		b.Str(sh.Topic)
+		b.I32(1)
+		b.I32(0)
+		b.I16(0)
+		b.I64(hwm)
+		if v >= 4 {
+			b.I64(2000 + int64(v)) // last stable offset
+			if v >= 5 {
+				b.I64(3000 + int64(v)) // log start offset
+			}
+			b.I32(2) // aborted transactions
+			b.I64(41)
+			b.I64(42)
+			b.I64(43)
+			b.I64(44)
+		}
+		b.I32(int32(len(sh.Set)))
+		b.Raw(sh.Set)
+		L := 8 + len(b.B)
+		exp := fmt.Sprint(sh.Want, "prefix", true, time.Duration(throttle)*time.Millisecond, hwm)
+		sum := md5.Sum([]byte(exp))
+		wd := hex.EncodeToString(sum[:6])
+		res := make(chan string, 1)
+		go func() {
+			cli, srv := net.Pipe()
+			done := make(chan struct{})
+			go splitBroker(srv, connfake.VersionTable(map[int16]int16{op.Key: v}), b.B, 0, done)
+			c := kafka.NewConn(cli, sh.Topic, 0)
+			c.SetDeadline(time.Now().Add(700 * time.Millisecond))
+			d, buffered := "", -1
+			_, err := c.Seek(sh.Offset, kafka.SeekAbsolute|kafka.SeekDontCheck)
+			if err == nil {
+				bt := c.ReadBatchWith(kafka.ReadBatchConfig{MinBytes: 1, MaxBytes: 1 << 20})
+				var got []connfake.Msg
+				for len(got) < 100 {
+					m, e := bt.ReadMessage()
+					if e != nil {
+						break
+					}
+					got = append(got, connfake.Msg{Offset: m.Offset, Key: string(m.Key), Value: string(m.Value)})
+				}
+				thr, hw := bt.Throttle(), bt.HighWaterMark()
+				err = bt.Close()
+				d = fmt.Sprint(got, "prefix", len(got) == len(sh.Want), thr, hw)
+				if err == nil {
+					buffered = kafka.VerifConnBuffered(c)
+				}
+			}
+			s5 := md5.Sum([]byte(d))
+			res <- fmt.Sprintf("%s %d %s", connfake.Outcome(err), buffered, hex.EncodeToString(s5[:6]))
+			c.Close()
+			srv.Close()
+			<-done
+		}()
+		got := "hang -1 -"
+		select {
+		case got = <-res:
+		case <-time.After(3 * time.Second):
+		}
+		fmt.Fprintf(w, "connresp fetchhdr %d %d %d %s\t%s\n", v, L, L, wd, got)
+	}
+}
+
 func respMode() {
 	r := gen.New()
 	w := bufio.NewWriter(os.Stdout)
 	defer w.Flush()
+	fetchHeader(w, r)
 	failures := 0
 	for _, op := range connfake.Ops {
 		for _, v := range op.Versions {
@@ -193,6 +286,35 @@ func respMode() {
 				if op.Name == "fetch" {
 					sum := md5.Sum([]byte(fmt.Sprint(sh.Want, "prefix", true)))
 					want = "ok 0 " + hex.EncodeToString(sum[:6])
+				}
+				if op.Name == "apiVersions" && len(body) >= 6 {
+					exp := ""
+					n := int(binary.BigEndian.Uint32(body[2:]))
+					for i := 0; i < n && 6+6*i+6 <= len(body); i++ {
+						e := body[6+6*i:]
+						exp += fmt.Sprintf("%d:%d:%d/", int16(binary.BigEndian.Uint16(e)), int16(binary.BigEndian.Uint16(e[2:])), int16(binary.BigEndian.Uint16(e[4:])))
+					}
+					sum := md5.Sum([]byte(exp))
+					want = "ok 0 " + hex.EncodeToString(sum[:6])
+				}
+				// list offsets / produce: the values Conn returns are fields of the body at fixed positions (topic "t":
+				// array(4) string(3) array(4) partition(4) error(2) then int64s) — expected independently of the reader
+				if tl := 2 + len(sh.Topic); len(body) >= 4+tl+4+4+2+16 {
+					at := 4 + tl + 4
+					part := int32(binary.BigEndian.Uint32(body[at:]))
+					first := int64(binary.BigEndian.Uint64(body[at+6:]))
+					second := int64(binary.BigEndian.Uint64(body[at+14:]))
+					exp := ""
+					switch op.Name {
+					case "listOffsets":
+						exp = fmt.Sprint(second) // partition, error, timestamp, OFFSET
+					case "produce":
+						exp = fmt.Sprintf("%d/%d", part, first) // partition, error, OFFSET, timestamp
+					}
+					if exp != "" {
+						sum := md5.Sum([]byte(exp))
+						want = "ok 0 " + hex.EncodeToString(sum[:6])
+					}
 				}
 				wd := want[len("ok 0 "):]
 				if len(want) < 6 || want[:5] != "ok 0 " {
